@@ -519,7 +519,7 @@ refresh_types(void)
 
 /* ---- instance-identifier: descriptor `instid:<schema-ser>:<yang-hex>[,<yang-hex>...]`.  The modules are loaded as given (the first one has
  * `container c { leaf-list l; leaf s }` of type instance-identifier besides the data nodes the values point to); <schema-ser> is the serialisation
- * of lean/LyModel/Path/Drv.lean (the one harness/api_path.c computes) and must equal what is computed here from the lysc_node trees of the loaded
+ * of lean/LyModel/Path/Drv.lean (the one harness/api_path.c computes) with a type field after the kind (lean/LyModel/Val/DrvInst.lean) and must equal what is computed here from the lysc_node trees of the loaded
  * modules, in the order given - the model works on <schema-ser> alone. */
 static char
 ii_kind(const struct lysc_node *sn)
@@ -540,6 +540,47 @@ ii_hex(char **buf, size_t *len, const char *t)
     for (; *t; t++) sb_add(buf, len, "%02x", (unsigned char)*t);
 }
 
+/* type field of a leaf / leaf-list: hex of the descriptor of its compiled type (i8.. u64 with the range parts, bool, str without restrictions,
+ * enum:<hexname>=<value>,..., inst; `?` anything else), `-` for the other nodes */
+static void
+ii_type(char **buf, size_t *len, const struct lysc_node *sn)
+{
+    static const char *ints[] = {[LY_TYPE_INT8] = "i8", [LY_TYPE_INT16] = "i16", [LY_TYPE_INT32] = "i32", [LY_TYPE_INT64] = "i64",
+        [LY_TYPE_UINT8] = "u8", [LY_TYPE_UINT16] = "u16", [LY_TYPE_UINT32] = "u32", [LY_TYPE_UINT64] = "u64"};
+    const struct lysc_type *t; char *d = NULL; size_t dl = 0; LY_ARRAY_COUNT_TYPE u;
+
+    if (sn->nodetype == LYS_LEAF) t = ((const struct lysc_node_leaf *)sn)->type;
+    else if (sn->nodetype == LYS_LEAFLIST) t = ((const struct lysc_node_leaflist *)sn)->type;
+    else { sb_add(buf, len, "-"); return; }
+    switch (t->basetype) {
+    case LY_TYPE_INT8: case LY_TYPE_INT16: case LY_TYPE_INT32: case LY_TYPE_INT64:
+    case LY_TYPE_UINT8: case LY_TYPE_UINT16: case LY_TYPE_UINT32: case LY_TYPE_UINT64: {
+        const struct lysc_range *r = ((const struct lysc_type_num *)t)->range;
+        int uns = t->basetype == LY_TYPE_UINT8 || t->basetype == LY_TYPE_UINT16 || t->basetype == LY_TYPE_UINT32 || t->basetype == LY_TYPE_UINT64;
+        sb_add(&d, &dl, "%s", ints[t->basetype]);
+        if (r) LY_ARRAY_FOR(r->parts, u) {
+            if (uns) sb_add(&d, &dl, "%s%" PRIu64 "..%" PRIu64, u ? "," : ":", r->parts[u].min_u64, r->parts[u].max_u64);
+            else sb_add(&d, &dl, "%s%" PRId64 "..%" PRId64, u ? "," : ":", r->parts[u].min_64, r->parts[u].max_64);
+        }
+        break;
+    }
+    case LY_TYPE_BOOL: sb_add(&d, &dl, "bool"); break;
+    case LY_TYPE_STRING:
+        sb_add(&d, &dl, (((const struct lysc_type_str *)t)->length || ((const struct lysc_type_str *)t)->patterns) ? "?" : "str");
+        break;
+    case LY_TYPE_ENUM: {
+        const struct lysc_type_enum *e = (const struct lysc_type_enum *)t;
+        sb_add(&d, &dl, "enum");
+        LY_ARRAY_FOR(e->enums, u) { sb_add(&d, &dl, u ? "," : ":"); ii_hex(&d, &dl, e->enums[u].name); sb_add(&d, &dl, "=%" PRId32, e->enums[u].value); }
+        break;
+    }
+    case LY_TYPE_INST: sb_add(&d, &dl, "inst"); break;
+    default: sb_add(&d, &dl, "?"); break;
+    }
+    ii_hex(buf, len, d);
+    free(d);
+}
+
 static void
 ii_ser(char **buf, size_t *len, const struct lysc_node *parent, const struct lysc_module *mod)
 {
@@ -547,7 +588,7 @@ ii_ser(char **buf, size_t *len, const struct lysc_node *parent, const struct lys
 
     while ((it = lys_getnext(it, parent, mod, 0))) {
         sb_add(buf, len, "("); ii_hex(buf, len, it->module->name); sb_add(buf, len, ","); ii_hex(buf, len, it->name);
-        sb_add(buf, len, ",%c,", ii_kind(it));
+        sb_add(buf, len, ",%c,", ii_kind(it)); ii_type(buf, len, it); sb_add(buf, len, ",");
         if (!(it->nodetype & (LYS_LEAF | LYS_LEAFLIST | LYS_ANYDATA | LYS_ANYXML))) ii_ser(buf, len, it, NULL);
         sb_add(buf, len, ")");
     }
